@@ -524,6 +524,10 @@ def binop(op, a, b):
         v = _fold2(op, a, b, bits)
         if v is not None:
             return K(v, bits)
+    if op in ("shl", "lshr") and b.op == "k" and a.op == op and a.args[1].op == "k":
+        # (x >> m) >> n  ->  x >> (m + n)   (same for <<): one spelling for b / 32 / 8 and b / 256
+        tot = a.args[1].args[0] + b.args[0]
+        return K(0, bits) if tot >= bits else binop(op, a.args[0], K(tot, bits))
     if op in _COMM and a.op == "k":
         a, b = b, a
     elif op in _COMM and b.op != "k" and a.serial > b.serial:
